@@ -31,7 +31,9 @@ func tkProj(transfers, state bool) string {
 
 var tkTransferFns = map[string]bool{"ESDTTransfer": true, "ESDTNFTTransfer": true, "MultiESDTNFTTransfer": true}
 
-func tkBK(shard uint32, addr []byte, suf string) string { return fmt.Sprintf("%d/%x/%x", shard, addr, suf) }
+func tkBK(shard uint32, addr []byte, suf string) string {
+	return fmt.Sprintf("%d/%x/%x", shard, addr, suf)
+}
 
 func tkU64(b []byte) uint64 { return new(big.Int).SetBytes(b).Uint64() }
 
@@ -899,26 +901,33 @@ func init() {
 		}
 		extra := map[string]int{}
 		idx := 0
-		for kind := 0; kind < 3; kind++ {
-			for shape := 0; shape < 4; shape++ {
-				for _, holds := range []bool{false, true} {
-					for _, cross := range []bool{true, false} {
-						bl := []string{"none", "frozen", "paused", "not-payable", "oracle-error"}
-						if kind > 0 && holds {
-							bl = append(bl, "wrong-hash")
-						}
-						for _, blocker := range bl {
-							c01RunScenario(c, u, c01Scen{kind: kind, shape: shape, holds: holds, blocker: blocker, cross: cross}, budget, idx, extra)
-							idx++
+		reps := 1
+		if !quick {
+			reps = 3 // other gas schedules / system-account placements
+		}
+		for rep := 0; rep < reps; rep++ {
+			for kind := 0; kind < 3; kind++ {
+				for shape := 0; shape < 4; shape++ {
+					for _, holds := range []bool{false, true} {
+						for _, cross := range []bool{true, false} {
+							bl := []string{"none", "frozen", "paused", "not-payable", "oracle-error"}
+							if kind > 0 && holds {
+								bl = append(bl, "wrong-hash")
+							}
+							for _, blocker := range bl {
+								c01RunScenario(c, u, c01Scen{kind: kind, shape: shape, holds: holds, blocker: blocker, cross: cross}, budget, idx, extra)
+								idx++
+							}
 						}
 					}
 				}
 			}
+			idx += 7
 		}
 		c01AliasFamily(c, u, &tkBudget{max: 60})
 		c01Orders(c, u, &tkBudget{max: 40})
 		c.rep.Extra = map[string]interface{}{"scenario_outcomes": extra, "scenarios": idx}
-		n, ops, prob, max := 5, 200, 1, 1000
+		n, ops, prob, max := 8, 250, 2, 1000
 		if !quick {
 			n, ops, prob, max = 40, 500, 2, 9000
 		}
